@@ -3,6 +3,7 @@ import copy
 import re
 
 import asm
+import core
 import gen
 import impl
 from wire import feats_to_json
@@ -104,9 +105,9 @@ def check_case(ctx, case):
         ctx.fail("a second consecutive call gives a different result", case)
     ctx.note("product-citations", ncited)
     ctx.case({k: v for k, v in case.items() if k != "info"}, nontrivial=ncited > 0)
-    if ctx.evaluations % 3 == 0:
+    if core.pick(case, 3):
         # the public target_sequence() looked at before assembling (citations still in their "[n]" form)
-        asm.lifecycle(ctx, {k: v for k, v in case.items() if k != "info"}, pretouch=True)
+        asm.lifecycle(ctx, case, pretouch=True)
     ctx.op(op, None, reply=reply)
 
 
